@@ -115,6 +115,7 @@ std::string hsite(const Step& s) { return s.op; }
 
 // every live handle of every client must still equal its model
 void check_all_handles(const std::string& oracle, const std::string& site, const std::string& after) {
+	api_end();
 	for (size_t c = 0; c < g_clients.size(); ++c)
 		for (size_t i = 0; i < g_clients[c].et.size(); ++i) {
 			ETH& h = g_clients[c].et[i];
@@ -128,6 +129,8 @@ void check_all_handles(const std::string& oracle, const std::string& site, const
 }
 
 void after_mutation(const Step& s, const std::string& what) {
+	api_end();
+	api_end();
 	if (armed("C11")) { count(c_oracle_evals); check_all_handles("C11.handle-equals-model", hsite(s), what); }
 }
 
@@ -146,6 +149,7 @@ ETH& add_handle(Client& c, ET&& aut, const TA& model, int alpha, uint64_t origin
 // The value of a freshly returned automaton is what can be read from it at
 // return time; C11 then requires it to stay that value.
 ETH& add_result(const Step& s, ET&& aut, int alpha, uint64_t origin = 0) {
+	api_end();
 	TA got = read_back(aut);
 	return add_handle(CL(s), std::move(aut), got, alpha, origin);
 }
@@ -185,6 +189,7 @@ void op_load(const Step& s) {
 	TA lit = mdl::from_lit(s.lit); int alpha = int(s.arg(0));
 	ET a; TA model;
 	load_into(a, alpha, lit, s.arg(1), model);
+	api_end();
 	if (armed("C11") || armed("C13") || armed("C12")) {
 		TA got = read_back(a); count(c_oracle_evals);
 		if (got != model) violation(g_profile + ".load-equals-description", "et_load", "loaded automaton differs from the text:" + mdl::diff(model, got));
@@ -313,6 +318,7 @@ void op_final(const Step& s) {
 	api_begin();
 	h.aut->SetStateFinal(StateType(s.arg(1)));
 	h.model.finals.insert(s.arg(1));
+	api_end();
 	if (armed("C12")) { count(c_oracle_evals); if (!h.aut->IsStateFinal(StateType(s.arg(1)))) violation("C12.final-states", "et_final", "IsStateFinal false right after SetStateFinal"); }
 	after_mutation(s, "et_final");
 }
@@ -349,6 +355,7 @@ void op_clear(const Step& s) {
 
 // ----------------------------------------------------------------- views (C12)
 void finish_iter(IterH& it, const std::string& site) {
+	api_end();
 	it.done = true; count(c_oracle_evals);
 	std::set<Rule> seen;
 	for (const Rule& r : it.yielded) {
@@ -470,12 +477,14 @@ void op_observe(const Step& s) {
 bool same_alpha(const ETH& a, const ETH& b) { return a.alpha == b.alpha; }
 
 void check_operands_unchanged(const Step& s, ETH& a, ETH* b, const std::string& P) {
+	api_end();
 	count(c_operand_rechecks);
 	TA ga = read_back(*a.aut); if (ga != a.model) violation(P + ".operand-unchanged", hsite(s), "left operand changed by the call:" + mdl::diff(a.model, ga));
 	if (b) { TA gb = read_back(*b->aut); if (gb != b->model) violation(P + ".operand-unchanged", hsite(s), "right operand changed by the call:" + mdl::diff(b->model, gb)); }
 }
 
 void lang_oracle(const std::string& oracle, const std::string& site, const TA& got, const TA& want, const std::string& what) {
+	api_end();
 	count(c_oracle_evals);
 	int e = mdl::equiv(got, want);
 	if (e < 0) { count(c_model_too_big); return; }
@@ -489,6 +498,7 @@ void op_union(const Step& s) {
 	api_begin();
 	ET r = mode == 0 ? ET::Union(*a.aut, *b.aut) : (mode == 1 ? ET::Union(*a.aut, *b.aut, &m1, &m2) : ET::Union(*a.aut, *b.aut, &m1, nullptr));
 	TA ma = a.model, mb = b.model; int al = a.alpha;
+	api_end();
 	if (armed("C02")) {
 		TA got = read_back(r);
 		lang_oracle("C02.union-language", "et_union", got, mdl::unite_tagged(ma, mb), "Union");
@@ -531,6 +541,7 @@ void op_union_disj(const Step& s) {
 		std::map<long, long> m; for (long q : sb) m[q] = q + off; mb2 = mdl::rename(mb, m);
 	}
 	ET r = ET::UnionDisjointStates(*a.aut, shifted ? *shifted : *b.aut);
+	api_end();
 	if (armed("C02")) {
 		TA got = read_back(r);
 		count(c_oracle_evals);
@@ -573,6 +584,7 @@ void do_isect(const Step& s, bool bu) {
 	}
 	ET r = bu ? (mode == 0 ? ET::IntersectionBU(*a.aut, *b.aut) : ET::IntersectionBU(*a.aut, *b.aut, &pm))
 	          : (mode == 0 ? ET::Intersection(*a.aut, *b.aut) : ET::Intersection(*a.aut, *b.aut, &pm));
+	api_end();
 	if (armed("C02")) {
 		TA got = read_back(r);
 		lang_oracle("C02.isect-language", site + (mode == 2 ? ":prefilled-map" : ""), got, mdl::isect(ma, mb), bu ? "IntersectionBU" : "Intersection");
@@ -590,6 +602,7 @@ void op_unreach(const Step& s) {
 	ETH& a = H(s, 0); TA ma = a.model; int al = a.alpha; StateMap tm;
 	api_begin();
 	ET r = (s.arg(1) & 1) ? a.aut->RemoveUnreachableStates(&tm) : a.aut->RemoveUnreachableStates();
+	api_end();
 	if (armed("C03")) {
 		TA got = read_back(r); count(c_oracle_evals);
 		std::set<long> reach = mdl::reachable(got);
@@ -608,6 +621,7 @@ void op_useless(const Step& s) {
 	ETH& a = H(s, 0); TA ma = a.model; int al = a.alpha; StateMap tm;
 	api_begin();
 	ET r = (s.arg(1) & 1) ? a.aut->RemoveUselessStates(&tm) : a.aut->RemoveUselessStates();
+	api_end();
 	if (armed("C03")) {
 		TA got = read_back(r); count(c_oracle_evals);
 		TA want = mdl::trim_useless(ma);
@@ -636,6 +650,7 @@ void op_is_empty(const Step& s) {
 	api_begin();
 	bool e = a.aut->IsLangEmpty();
 	observe(uint64_t(e));
+	api_end();
 	if (armed("C03")) {
 		count(c_oracle_evals); bool want = mdl::is_empty(a.model);
 		(want ? count(c_lang_empty) : count(c_lang_nonempty));
@@ -650,6 +665,7 @@ void op_reduce(const Step& s) {
 	ETH& a = H(s, 0); TA ma = a.model; int al = a.alpha;
 	api_begin();
 	ET r = a.aut->Reduce();
+	api_end();
 	if (armed("C05")) {
 		TA got = read_back(r); count(c_oracle_evals);
 		if (got.states().size() > ma.states().size()) violation("C05.reduce-size", "et_reduce", "Reduce returned more states than the input has");
@@ -687,7 +703,9 @@ void op_complement(const Step& s) {
 	mdl::Alphabet sigma = dict_content(*a.aut);
 	if (sigma != alpha_model(al)) harness_error("alphabet model out of sync with the dictionary");
 	api_begin();
+	api_site("et_complement", BUDGET_INCONCLUSIVE, 3000000);
 	ET r = a.aut->Complement();
+	api_end();
 	if (armed("C06")) {
 		count(c_oracle_evals);
 		// read the result by iteration and interpret its symbol NUMBERS through the operand's alphabet
@@ -716,6 +734,7 @@ void op_witness(const Step& s) {
 	ETH& a = H(s, 0); TA ma = a.model; int al = a.alpha;
 	api_begin();
 	ET r = a.aut->GetCandidateTree();
+	api_end();
 	if (armed("C15")) {
 		TA got = read_back(r); count(c_oracle_evals);
 		int in = mdl::incl(got, ma);
@@ -812,6 +831,7 @@ void op_reindex_into(const Step& s) {
 	a.aut->ReindexStates(*d.aut, f, addf);
 	TA img = mdl::rename(a.model, f.m); if (!addf) img.finals.clear();
 	d.model = mdl::unite(before, img);
+	api_end();
 	if (armed("C14")) {
 		check_image(s, a.model, before, read_back(*d.aut), f.m, addf, "et_reindex_into");
 		check_operands_unchanged(s, a, nullptr, "C14");
@@ -828,6 +848,7 @@ void op_collapse(const Step& s) {
 	StateMap sm; for (auto& kv : m) sm[StateType(kv.first)] = StateType(kv.second);
 	api_begin();
 	ET res = a.aut->CollapseStates(sm);
+	api_end();
 	if (armed("C14")) {
 		check_image(s, ma, TA(), read_back(res), m, true, "et_collapse");
 		check_operands_unchanged(s, a, nullptr, "C14");
@@ -860,6 +881,7 @@ void op_transl_syms(const Step& s) {
 	}
 	api_begin();
 	ET res = a.aut->TranslateSymbols(f);
+	api_end();
 	if (armed("C14")) {
 		count(c_oracle_evals);
 		TA want; want.finals = ma.finals;
@@ -898,6 +920,7 @@ void op_sim(const Step& s) {
 	VATA::SimParam sp; sp.SetNumStates(n);
 	sp.SetRelation(up ? VATA::SimParam::e_sim_relation::TA_UPWARD : VATA::SimParam::e_sim_relation::TA_DOWNWARD);
 	VATA::AutBase::StateDiscontBinaryRelation rel = dense.ComputeSimulation(sp);
+	api_end();
 	if (armed("C04")) {
 		count(c_oracle_evals);
 		mdl::Rel want = up ? mdl::up_sim(dm) : mdl::down_sim(dm);
@@ -937,6 +960,14 @@ void sel_options(long sel, Options& o, VATA::InclParam& ip) {
 	ip.SetSearchOrder(breadth ? VATA::InclParam::e_search_order::breadth : VATA::InclParam::e_search_order::depth);
 }
 
+// The downward algorithms enumerate choice functions and are exponential even on
+// small automata (measured: 1.6 s for a 7-state pair in the non-recursive
+// variant): running out of budget there is inconclusive, not a hang.  The
+// upward algorithm never needed more than 3*10^5 allocator events on the
+// generated sizes; its budget is 100 times that and exhausting it is a hang.
+BudgetPolicy incl_budget_policy(long sel) { return (sel == 0 || sel == 1 || sel >= 8) ? BUDGET_HANG : BUDGET_INCONCLUSIVE; }
+uint64_t incl_budget(long sel) { return (sel == 0 || sel == 1 || sel >= 8) ? 30000000 : 3000000; }
+
 // returns 0/1, or 2 for NotImplementedException
 int run_incl(const ET& a, const ET& b, long sel, long via) {
 	Options o; VATA::InclParam ip; sel_options(sel, o, ip);
@@ -949,11 +980,13 @@ int run_incl(const ET& a, const ET& b, long sel, long via) {
 
 void op_incl(const Step& s) {
 	ETH& a = H(s, 0); ETH& b = H(s, 1); if (!same_alpha(a, b)) throw Skip();
-	long sel = mod(s.arg(2), N_SEL), via = s.arg(3) & 1;
+	long sel = mod(s.arg(2), N_SEL), via = (s.arg(3) & 1) | (sel < 10 ? (sel & 1) : 0);
 	const std::string site = std::string("et_incl:") + SEL_NAMES[sel] + (via ? ":cli" : ":api");
 	api_begin();
+	api_site(site, incl_budget_policy(sel), incl_budget(sel));
 	int v = run_incl(*a.aut, *b.aut, sel, via);
 	observe(uint64_t(v));
+	api_end();
 	if (armed("C01")) {
 		count(c_oracle_evals);
 		if (sel >= 8) {
@@ -982,8 +1015,9 @@ void op_incl_all(const Step& s) {
 	int want = mdl::incl(a.model, b.model); int first = -1; long firstsel = 0;
 	api_begin();
 	for (long sel : order) {
-		long via = r.below(2);
-		const std::string site = std::string("et_incl:") + SEL_NAMES[sel] + ((via || (sel & 1)) ? ":cli" : ":api");
+		long via = long(r.below(2)) | (sel & 1);
+		const std::string site = std::string("et_incl:") + SEL_NAMES[sel] + (via ? ":cli" : ":api");
+		api_site(site, incl_budget_policy(sel), incl_budget(sel));
 		int v = run_incl(*a.aut, *b.aut, sel, via);
 		observe(uint64_t(v));
 		count(c_oracle_evals);
@@ -1038,10 +1072,12 @@ void abort_client(int c, uint64_t order_seed) {
 	// views first (they must not outlive their automaton), then the automata in a drawn order
 	while (!cl.iters.empty()) { size_t i = size_t(r.below(cl.iters.size())); cl.iters[i].reset(); cl.iters.erase(cl.iters.begin() + long(i)); }
 	while (!cl.et.empty()) { size_t i = size_t(r.below(cl.et.size())); cl.et.erase(cl.et.begin() + long(i)); count(c_handles_destroyed); }
+	api_end();
 	if (armed("C11")) { count(c_oracle_evals); check_all_handles("C11.handle-equals-model", "abort", "abort of client " + std::to_string(c)); }
 }
 
 void final_check() {
+	api_end();
 	if (armed("C11") || armed("C12") || armed("C14") || armed("C02") || armed("C03"))
 		check_all_handles(g_profile + ".handle-equals-model", "<final>", "the end of the run");
 	for (auto& c : g_clients) {
